@@ -1,3 +1,5 @@
 module verif.local/simrt
 
 go 1.25.3
+
+require github.com/anishathalye/porcupine v1.3.0
